@@ -30,6 +30,8 @@ import (
 	"github.com/yandex/pandora/lib/monitoring"
 	"go.uber.org/zap"
 	"google.golang.org/grpc"
+	"google.golang.org/grpc/codes"
+	"google.golang.org/grpc/status"
 	"google.golang.org/grpc/reflection"
 	"gopkg.in/yaml.v2"
 )
@@ -67,9 +69,15 @@ type Server struct {
 	Srv   *server.GRPCServer
 	hmu   sync.Mutex
 	calls atomic.Int64
+	// Refuse: every unary call is answered with codes.Unavailable without reaching the service (what a gun sees when
+	// the target is gone; the listener stays open, so the port cannot be taken over by another case's target)
+	Refuse atomic.Bool
 }
 
 func (s *Server) intercept(ctx context.Context, req any, info *grpc.UnaryServerInfo, handler grpc.UnaryHandler) (any, error) {
+	if s.Refuse.Load() {
+		return nil, status.Error(codes.Unavailable, "target refuses")
+	}
 	s.calls.Add(1)
 	// The example service updates its statistics maps without synchronisation; handlers are serialised so that the
 	// race detector reports concern the load generator, never the target.
